@@ -13,7 +13,7 @@ CHECKS = {
     "C16": dict(level="fault_enumeration", quick=(32, 90), thorough=(4000, 1500)),
     "C12": dict(level="exploration", quick=(800, 90), thorough=(40000, 1500)),
     "C10": dict(level="exploration", quick=(1500, 90), thorough=(30000, 1500)),
-    "C09": dict(level="exploration", quick=(600, 90), thorough=(12000, 1500)),
+    "C09": dict(level="exploration", quick=(450, 90), thorough=(12000, 1500)),
     "C06": dict(level="exploration", quick=(400, 90), thorough=(30000, 1500)),
     "C03": dict(level="exploration", quick=(400, 90), thorough=(20000, 1500)),
 }
